@@ -1,18 +1,18 @@
 CONSTANTS
-  Users = {"", "u"}
+  Users = {"u"}
   Epochs = {1, 2}
   Versions = {1, 2}
-  Values = {"p", "q"}
+  Values = {"p"}
   NodeNames = {"n1"}
   AzksEpochs = {1, 2}
-  HasCache = FALSE
+  HasCache = TRUE
   CachePutBeforeDbWrite = FALSE
   BulkVersionsUsesEpoch = FALSE
-  FillPolicy = "if_same_generation"
+  FillPolicy = "always"
   Export = FALSE
-  MaxSteps = 4
-  WithReads = FALSE
-  SplitReads = FALSE
+  MaxSteps = 3
+  WithReads = TRUE
+  SplitReads = TRUE
 INIT MCInit
 NEXT MCNext
 VIEW View
